@@ -37,7 +37,7 @@ func (a Arch) String() string {
 	}
 
 	if !strings.Contains(a.CPU, "-") {
-		if a.ABI == "gnu" && a.OS == "linux" && a.CPU != "any" && a.CPU != "all" {
+		if a.ABI == "gnu" && a.OS == "linux" && a.CPU != "any" && a.CPU != "all" && a.CPU != "" {
 			return a.CPU
 		}
 		if a.ABI == "any" {
